@@ -717,6 +717,10 @@ def origins(body, start, through_calls=True, max_nodes=4000, call_filter=None):
             out.add('.'.join(('p#%d' % l,) + path))
             out.add('.'.join(('pty:' + type_head(body.lty(l)),) + path))
             # parameters can still be reassigned, fall through to defs
+        elif path:
+            # a field (path) of a struct-typed local: spelled by the local's type head, so that a rule can tell
+            # `x.current` from `x.next` even when x is the result of a call
+            out.add('.'.join(('lty:' + type_head(body.lty(l)),) + path))
         ds = body.defs(l)
         live = body.live()
         for (bi, si, pl, rv) in ds:
